@@ -86,7 +86,9 @@ func (plan shapePlan) userFeaturesMatch(other shapePlan) bool {
 }
 
 func (plan shapePlan) equal(other shapePlan) bool {
-	return plan.props == other.props && plan.userFeaturesMatch(other)
+	// the OpenType plan also depends on the feature variations selected by the
+	// variation coordinates
+	return plan.props == other.props && plan.userFeaturesMatch(other) && plan.shaper.key == other.shaper.key
 }
 
 // Constructs a shaping plan for a combination of @face, @userFeatures, @props,
